@@ -1,6 +1,7 @@
 """C05 — parsing is total: any input yields an AST or a well-formed error, never a crash."""
 import os
 from lib import *
+import sem
 import parsergraph
 import C01
 
@@ -121,22 +122,36 @@ def rule_span(E, R):
         for c in calls(hb["body"], r"^ast::parse::ParseError::new$"):
             callers.append((hb, c))
     ok_names = {"ast::parse::FilterParser::parse", "ast::parse::FilterParser::parse_value"}
-    R.floor(rule, "ParseError::new call sites", len(callers), 2)
+    R.floor(rule, "ParseError::new call sites", len(callers), 1)
+    cbn = callers_by_name(E)
     for hb, c in callers:
         p = norm(hb["path"]).split("::{closure")[0]
-        R.check(p in ok_names and is_param(c["args"][0], hb, 1), rule, p,
-                "ParseError::new receives the function's own `input`", where=c["sp"])
+        it = E.item(p)
+        shared = p not in ok_names and it is not None and it.get("vis") != "Public" and \
+            {x for x in cbn.get(p, ()) if "::tests::" not in x} and {x for x in cbn.get(p, ()) if "::tests::" not in x} <= ok_names
+        R.check(p in ok_names or bool(shared), rule, p, "parse errors are built only by parse()/parse_value() (or the private helper they share)",
+                where=c["sp"])
     for fn in ok_names:
         h = E.hir(fn)
         if not h:
             R.cannot(rule, fn, "anchor not found")
             continue
-        lx = [c for c in exprs(h["body"], "MethodCall") if c["m"] == "lex_as"]
-        ok = len(lx) == 1 and strip(lx[0]["args"][0]).get("k") == "MethodCall" and strip(lx[0]["args"][0])["m"] == "trim" and \
-            is_param(strip(lx[0]["args"][0])["recv"], h, 1)
+        # read with the private helper (if any) followed: the error is reported against this function's own `input`, the
+        # text that is lexed is `input.trim()`, and trailing input is rejected
+        S = sem.Sem(E, h)
+        sites = S.sites()
+        pe = [x for x in sites if x.node.get("k") == "Call" and norm(x.node.get("callee", "")) == "ast::parse::ParseError::new"]
+        R.check(len(pe) == 1 and sem.param_index(S, pe[0].node["args"][0], pe[0].frame) == 1, rule, fn,
+                "ParseError::new receives the function's own `input`", where=h["span"])
+        lx = [x for x in sites if x.node.get("k") == "MethodCall" and x.node["m"] == "lex_as"]
+        ok = False
+        if len(lx) == 1:
+            a0 = S.resolve(lx[0].node["args"][0], lx[0].frame)
+            tr = sem.is_method(a0.node, "trim")
+            ok = tr is not None and sem.param_index(S, tr, a0.frame) == 1
         R.check(ok, rule, fn, "the text that is lexed is `input.trim()` - a sub-slice of the reported input", where=h["span"])
-        cp = [c for c in exprs(h["body"], "Call") if norm(c.get("callee", "")) == "lex::complete"]
-        R.check(len(cp) == 1, rule, fn, "trailing input is rejected by complete()", where=h["span"])
+        cp = [x for x in sites if x.node.get("k") == "Call" and norm(x.node.get("callee", "")) == "lex::complete"]
+        R.check(len(cp) == 1 and not cp[0].pc_has_conditions(), rule, fn, "trailing input is rejected by complete()", where=h["span"])
 
 
 def run(F, R, tier):
@@ -211,6 +226,11 @@ def _ascii_byte_lits(n):
             lit = x["lit"]["v"]
         if x.get("k") == "PELit" and x["lit"].get("t") == "byte":
             lit = x["lit"]["v"]
+        # a byte constant (`const QUOTE_BYTE: u8 = b'"'`) used in an expression or as a pattern
+        if x.get("k") in ("Path", "PEPath") and x.get("res", {}).get("r") == "def" and str(x["res"].get("dk", "")).startswith(("Const", "AssocConst")):
+            v_ = CONST_VALUES.get(x["res"].get("path"))
+            if isinstance(v_, int) and not isinstance(v_, bool) and 0 <= v_ < 256 and norm(x.get("ty", "u8")).lstrip("&") == "u8":
+                lit = v_
         if lit is not None:
             out.append(lit)
     return out
@@ -258,7 +278,7 @@ def _bound_safe(E, hb, e, depth=0):
             ms = [x["m"] for x in ch]
             if ms == ["chars", "take_while", "count"]:
                 clo = closure_of(ch[1]["args"][0])
-                lits = [x["lit"].get("v") for x in exprs(clo["body"], "Lit")] if clo else []
+                lits = [lit_value(x) for x in exprs(clo["body"], ("Lit", "Path")) if lit_value(x) is not None] if clo else []
                 if lits and all(isinstance(v, str) and len(v) == 1 and ord(v) < 0x80 for v in lits):
                     return True, "count of leading ASCII characters"
         if e["m"] == "len" and _is_str_ty(e["recv"].get("ty")) or (e["m"] == "len" and "str" in norm(e["recv"].get("ty", ""))):
